@@ -147,6 +147,79 @@ def run(ctx):
     ctx.attempt(_r1)
     ctx.attempt(_r2)
     ctx.attempt(_r3)
+    ctx.attempt(_r4)
+
+
+def _r4(ctx):
+    """Histogram inputs: range == 2*amplitude and mean == meanstress on every ordering of from/to; the range histogram and
+    the range/mean histogram are fed from the same quantities; level binnings are selected by name, not by position."""
+    prog = ctx.prog
+    ctx.rule("R-C14-4", floor=4, what="histogram inputs are 2*amplitude and meanstress; re-binning picks each level's binning by name")
+    lc = prog.cls(LC)
+    h = prog.lookup_method(lc, "histogram")
+    d = [n for n in ast.walk(h.node) if isinstance(n, ast.Dict) and {const_value(k) for k in n.keys} == {"range", "meanstress"}]
+    if len(d) != 1:
+        raise AnalysisError("LoadCollective.histogram: range/meanstress frame not found")
+    cols = {const_value(k): v for k, v in zip(d[0].keys, d[0].values)}
+    for case in ("le", "gt"):
+        p = PropNF(prog, case)
+        try:
+            amp = p.prop(lc, "amplitude", _leaf_fromto)
+            mean = p.prop(lc, "meanstress", _leaf_fromto)
+            rng = p.tr(cols["range"], lc, _leaf_fromto)
+            mn = p.tr(cols["meanstress"], lc, _leaf_fromto)
+        except NFUnsupported as e:
+            raise AnalysisError("histogram inputs outside the fragment: %s" % e)
+        cs = "from<=to" if case == "le" else "from>to"
+        if rng == RF.const(2) * amp and mn == mean:
+            ctx.holds(h, d[0], "range/mean histogram input: range == 2*amplitude, mean == meanstress [%s]" % cs)
+        else:
+            ctx.violated(h, d[0], "range/mean histogram is fed with range = %r, mean = %r; expected 2*amplitude = %r and meanstress = %r "
+                         "[%s]: hanging cycles would be booked into wrong classes" % (rng, mn, RF.const(2) * amp, mean, cs),
+                         text="histogram inputs " + case)
+    rh = prog.lookup_method(lc, "range_histogram")
+    mh = [n for n in ast.walk(rh.node) if isinstance(n, ast.FunctionDef) and n is not rh.node]
+    ok = False
+    if mh:
+        g = mh[0]
+        hc = [c for c in calls_in(g) if call_name(c) == "np.histogram"]
+        arg = g.args.args[0].arg
+        try:
+            ok = len(hc) == 1 and to_nf(hc[0].args[0], atom=lambda e: "A" if isinstance(e, ast.Name) and e.id == arg else None) \
+                == to_nf(parse_expr("2*A"))
+        except NFUnsupported:
+            ok = False
+        srcs = [c for c in calls_in(rh.node) if isinstance(c.func, ast.Name) and c.func.id == g.name] + \
+            [c for c in calls_in(rh.node) if isinstance(c.func, ast.Attribute) and c.func.attr == "apply" and
+             any(isinstance(a, ast.Name) and a.id == g.name for a in c.args)]
+        feeds = []
+        for c in srcs:
+            a = c.args[0] if isinstance(c.func, ast.Name) else c.func.value
+            feeds.append(any(is_self_attr(n, "amplitude") for n in ast.walk(a)))
+        ok = ok and feeds and all(feeds)
+    if ok:
+        ctx.holds(rh, rh.node, "range histogram counts 2*amplitude of the same collective")
+    else:
+        ctx.violated(rh, rh.node, "range histogram is not computed from 2*amplitude", text="range_histogram input")
+    # level selection by name in rebin_histogram
+    f = prog.func("pylife.utils.histogram:rebin_histogram")
+    sel = [n for n in ast.walk(f.node) if isinstance(n, ast.Subscript) and isinstance(n.value, ast.Attribute) and
+           n.value.attr == "levels" and isinstance(n.ctx, ast.Load)]
+    if len(sel) != 1:
+        raise AnalysisError("rebin_histogram: selection of the level binning not found")
+    root = norm_text(sel[0].value.value)
+    idx = sel[0].slice
+    by_name = isinstance(idx, ast.Call) and isinstance(idx.func, ast.Attribute) and idx.func.attr == "index" and \
+        norm_text(idx.func.value) == root + ".names" and len(idx.args) == 1 and isinstance(idx.args[0], ast.Name)
+    loop = [n for n in ast.walk(f.node) if isinstance(n, ast.For)]
+    name_var = idx.args[0].id if by_name else None
+    iter_ok = loop and ((isinstance(loop[0].target, ast.Name) and loop[0].target.id == name_var) or
+                        (isinstance(loop[0].target, ast.Tuple) and any(isinstance(t, ast.Name) and t.id == name_var for t in loop[0].target.elts)))
+    if by_name and iter_ok:
+        ctx.holds(f, sel[0], "binning of a level = %s.levels[%s.names.index(level name)]: selected by name" % (root, root))
+    else:
+        ctx.violated(f, sel[0], "the binning of a histogram level is selected as %s, i.e. by a position that belongs to another "
+                     "object, not by the level's name: histogram and binning may list their levels in different orders" % norm_text(sel[0]))
 
 
 def _identities(ctx, fi_of, vals, label, case):
@@ -363,8 +436,14 @@ def _r2(ctx):
     f = prog.lookup_method(lh, "_shift_or_scale")
     ret = [s for s in f.node.body if isinstance(s, ast.Return)][-1]
     v = ret.value
-    ok = isinstance(v, ast.Call) and call_name(v) == "pd.Series" and norm_text(v.args[0]) == "obj.values" and \
-        norm_text(next((k.value for k in v.keywords if k.arg == "index"), ast.Constant(None))) == "new_index"
+    bc = [s_ for s_ in f.node.body if isinstance(s_, ast.Assign) and isinstance(s_.targets[0], ast.Tuple) and
+          isinstance(s_.value, ast.Call) and isinstance(s_.value.func, ast.Attribute) and s_.value.func.attr == "broadcast"]
+    objn = bc[0].targets[0].elts[1].id if bc and len(bc[0].targets[0].elts) == 2 and isinstance(bc[0].targets[0].elts[1], ast.Name) else None
+    idxn = [s_.targets[0].id for s_ in f.node.body if isinstance(s_, ast.Assign) and isinstance(s_.targets[0], ast.Name) and
+            isinstance(s_.value, ast.Call) and call_name(s_.value) == "pd.MultiIndex.from_arrays"]
+    ok = objn is not None and len(idxn) == 1 and isinstance(v, ast.Call) and call_name(v) == "pd.Series" and v.args and \
+        norm_text(v.args[0]) == objn + ".values" and \
+        norm_text(next((k.value for k in v.keywords if k.arg == "index"), ast.Constant(None))) == idxn[0]
     if ok:
         ctx.holds(f, ret, "histogram: cycle values pass through unchanged, only the index is rebuilt")
     else:
@@ -540,8 +619,11 @@ def _r3(ctx):
     cb = prog.func(H + "combine_histogram")
     c = [c_ for c_ in calls_in(cb.node) if isinstance(c_.func, ast.Attribute) and c_.func.attr == "agg"]
     dflt = dict(zip(cb.params[-len(cb.node.args.defaults):], cb.node.args.defaults)).get("method")
-    ok = len(c) == 1 and norm_text(c[0].args[0]) == "method" and const_value(dflt) == "sum" and \
-        "groupby(concat.index)" in norm_text(c[0].func.value) and any(call_name(x) == "pd.concat" for x in calls_in(cb.node))
+    cc = [s_ for s_ in cb.node.body if isinstance(s_, ast.Assign) and isinstance(s_.targets[0], ast.Name) and
+          isinstance(s_.value, ast.Call) and call_name(s_.value) == "pd.concat"]
+    ccn = cc[0].targets[0].id if len(cc) == 1 else None
+    ok = ccn is not None and len(c) == 1 and norm_text(c[0].args[0]) == "method" and const_value(dflt) == "sum" and \
+        norm_text(c[0].func.value) == "%s.groupby(%s.index)" % (ccn, ccn)
     if ok:
         ctx.holds(cb, c[0], "combination: concatenated histograms aggregated per class with the requested method (default sum)")
     else:
@@ -690,6 +772,24 @@ def variants():
         f.args.defaults[-1] = ast.Constant("max")
         return True
     out.append(witness("combine_histogram defaults to max", HIS, combine_max, "R-C14-3"))
+
+    def hist_noabs(tree):
+        f = find_func(tree, "LoadCollective.histogram")
+        for n in ast.walk(f):
+            if isinstance(n, ast.Dict) and {const_value(k) for k in n.keys} == {"range", "meanstress"}:
+                n.values[0] = parse_expr("self._obj['to'] - self._obj['from']")
+                return True
+        return False
+    out.append(witness("2-D histogram range = to - from (no abs)", CP, hist_noabs, "R-C14-4"))
+
+    def level_by_pos(tree):
+        f = find_func(tree, "rebin_histogram")
+        for n in ast.walk(f):
+            if isinstance(n, ast.Subscript) and isinstance(n.value, ast.Attribute) and n.value.attr == "levels":
+                n.slice = parse_expr("list(original_names).index(name)")
+                return True
+        return False
+    out.append(witness("level binning picked by the histogram's level position", HIS, level_by_pos, "R-C14-4"))
 
     def share_alt(tree):
         f = _inner(tree, "_do_rebin_histogram", "interval_overlap")
